@@ -57,11 +57,19 @@ def trial_count(sub, desc):
     for name in ('IterateSATGen', 'RandomGen', 'CMSGen', 'UniGen'):
         if name == 'RandomGen' and built.block.complex_factors_or_constraints:
             continue   # rejection sampling may take unboundedly long; RandomGen's lengths are C04's subject
-        try:
-            with quiet():
-                out = sp.synthesize_trials(built.block, 2, getattr(sp, name))
-        except Exception:
-            continue   # exceptions are C08's subject
+        if name == 'UniGen':
+            # native sampler: child process with a hard time limit (it cannot be interrupted from Python)
+            from .c08 import child_lengths
+            lens = child_lengths(desc, name, 120)
+            if lens is None:
+                continue
+            out = [{k: [None] * n for k, n in d.items()} for d in lens]
+        else:
+            try:
+                with quiet():
+                    out = sp.synthesize_trials(built.block, 2, getattr(sp, name))
+            except Exception:
+                continue   # exceptions are C08's subject
         for seq in out:
             bad = {k: len(v) for k, v in seq.items() if len(v) != sem.T}
             if bad:
